@@ -194,3 +194,53 @@ def registry_traces(pid, chk, cases):
         traces.append({"id": tid, "events": evs})
         inputs[tid] = {"roots": roots, "env": envspec, "policy": policy}
     return traces, inputs
+
+
+# ---------------------------------------------------------------------- all similarity graphs (MC_Closure)
+CFG_CLOSURE = """SPECIFICATION Spec
+CONSTANTS
+  NM = %d
+  Emit = %s
+INVARIANT Correct
+INVARIANT Inside
+INVARIANT Bounded
+PROPERTY Terminates
+CHECK_DEADLOCK FALSE
+"""
+
+
+def mc_closure(chk, nm, emit=True, timeout=3000):
+    r = chk.model_check("MC_Closure", CFG_CLOSURE % (nm, "TRUE" if emit else "FALSE"),
+                        "closure loop of merge_models for every similarity relation on %d models: Correct Inside Bounded, "
+                        "liveness Terminates" % nm, timeout=timeout)
+    return [json.loads(t[1]) for t in tlc.printed_tuples(r["out"], "B")] if emit else []
+
+
+def closure_cases(behaviours, nm):
+    """one root sample with nm nested objects of pairwise distinct key sets; similarity given by the table"""
+    keysets = {str(i): ["f%d" % i, "g%d" % i] for i in range(1, nm + 1)}
+    sample = {"m%d" % i: {k: 1 for k in keysets[str(i)]} for i in range(1, nm + 1)}
+    cases = []
+    for b in behaviours:
+        pairs = [(keysets[p[0]], keysets[p[1]]) for p in b["pairs"]]
+        cases.append(([("Root", [sample])], {}, [("table", pairs)], "clo"))
+    return cases
+
+
+def boundary_cases(quick):
+    """two nested objects with |a & b| = i and |a | b| = u for every 0 <= i <= u <= 10: comparator thresholds"""
+    cases = []
+    pols = [[("percent", 70)], [("percent", 50)], [("percent", 100)], [("number", 1)], [("number", 2)], [("number", 10)],
+            [("percent", 70), ("number", 10)], [("exact", 0)]]
+    for u in range(1, 11):
+        for i in range(0, u + 1):
+            rest = u - i
+            for ra in ({0, rest // 2, rest} if not quick else {rest // 2}):
+                a = ["c%d" % k for k in range(i)] + ["a%d" % k for k in range(ra)]
+                b = ["c%d" % k for k in range(i)] + ["b%d" % k for k in range(rest - ra)]
+                if not a or not b:
+                    continue
+                sample = {"p": {k: 1 for k in a}, "q": {k: 1 for k in b}}
+                for pol in pols:
+                    cases.append(([("Root", [sample])], {}, pol, "bnd"))
+    return cases
